@@ -361,6 +361,7 @@ func CompileList(list List) (f Object) {
 					return &Dynamic{
 						Function: Function{
 							Name: name,
+							Args: args,
 							Self: &lc,
 						},
 					}
